@@ -5,7 +5,8 @@ ObjV(n) == [k |-> "obj", name |-> n]
 TupV(s) == [k |-> "tup", items |-> s]
 WordV(w) == [k |-> "word", w |-> w]
 Common == [f |-> FnV("f"), g |-> FnV("g"),
-           t |-> TupV(<< IntV(10), IntV(20), FracV(5, 2) >>), o |-> ObjV("o1")]
+           t |-> TupV(<< IntV(10), IntV(20), FracV(5, 2) >>), o |-> ObjV("o1"),
+           m |-> [k |-> "map", name |-> "m1"]]
 Envs == <<
   [x |-> IntV(2),      y |-> IntV(-3),     z |-> IntV(1)]     @@ Common,
   [x |-> FracV(1, 2),  y |-> IntV(2),      z |-> IntV(-1)]    @@ Common,
